@@ -31,6 +31,7 @@ func checkC18(c *core.Ctx, r *core.Report) {
 	r.NotCovered = "robustness of the un-checksummed decoders (block summaries, SST, PQMR, sort index, tags tree, series blocks), bounds of on-disk lengths inside a CRC-valid block, isolation between segments"
 	c18NarrowSum(c, r)
 	c18Drain(c, r)
+	c18ShortReads(c, r)
 	sm := newSummaries(c)
 
 	crcFn := c.ExtObj("hash/crc32", "ChecksumIEEE")
